@@ -558,3 +558,13 @@ def run(ctx):  # noqa: F811
     _run_c18b(ctx)
     r18_4(ctx, ctx.model)
     r18_5(ctx, ctx.model)
+
+
+_run_c18c = run
+
+
+def run(ctx):  # noqa: F811
+    _run_c18c(ctx)
+    from .refusal import refusal_rule
+    refusal_rule(ctx, "R18.6", ["nifty.re.evi"], "the JAX sample generators (draw_linear_residual, nonlinearly_update_residual, draw_residual)",
+                 only={"draw_linear_residual", "nonlinearly_update_residual", "draw_residual", "_process_point_estimate", "sample_likelihood"}, floor=1)
